@@ -3,6 +3,7 @@ package exec
 import (
 	"fmt"
 	"go/types"
+	"math"
 	"strconv"
 	"strings"
 
@@ -199,6 +200,21 @@ func init() {
 		},
 		"time.Since": func(e *Exec, _ *frame, _ *ssa.Function, a []Value) Value { return e.freshInt("clock.since", 64) },
 		"time.Until": func(e *Exec, _ *frame, _ *ssa.Function, a []Value) Value { return e.freshInt("clock.until", 64) },
+
+		"math.Trunc": mathRound(math.Trunc), "math.Floor": mathRound(math.Floor), "math.Ceil": mathRound(math.Ceil),
+		"math.IsNaN": func(e *Exec, _ *frame, _ *ssa.Function, a []Value) Value {
+			if f, ok := a[0].(float64); ok {
+				return e.c.Bool(math.IsNaN(f))
+			}
+			return e.c.False
+		},
+		"math.IsInf": func(e *Exec, _ *frame, _ *ssa.Function, a []Value) Value {
+			if f, ok := a[0].(float64); ok {
+				s, _ := a[1].(*smt.Term).ConstS()
+				return e.c.Bool(math.IsInf(f, int(s)))
+			}
+			return e.c.False
+		},
 
 		// --- misc library ---------------------------------------------------
 		"github.com/google/uuid.NewString": func(e *Exec, _ *frame, _ *ssa.Function, a []Value) Value {
@@ -733,6 +749,28 @@ func registerAtomics() {
 		}
 		return e.c.False
 	}
+	// atomic.Pointer[T]: generic methods are matched through their origin
+	intrinsics["(*sync/atomic.Pointer[T]).Load"] = func(e *Exec, _ *frame, _ *ssa.Function, a []Value) Value { return *atomicCell(e, a[0]) }
+	intrinsics["(*sync/atomic.Pointer[T]).Store"] = func(e *Exec, _ *frame, _ *ssa.Function, a []Value) Value {
+		*atomicCell(e, a[0]) = a[1]
+		return nil
+	}
+	intrinsics["(*sync/atomic.Pointer[T]).Swap"] = func(e *Exec, _ *frame, _ *ssa.Function, a []Value) Value {
+		c := atomicCell(e, a[0])
+		old := *c
+		*c = a[1]
+		return old
+	}
+	intrinsics["(*sync/atomic.Pointer[T]).CompareAndSwap"] = func(e *Exec, _ *frame, _ *ssa.Function, a []Value) Value {
+		c := atomicCell(e, a[0])
+		cur, _ := (*c).(*Value)
+		old, _ := a[1].(*Value)
+		if cur == old {
+			*c = a[2]
+			return e.c.True
+		}
+		return e.c.False
+	}
 	for _, fn := range []string{"Int32", "Int64", "Uint32", "Uint64", "Uintptr"} {
 		intrinsics["sync/atomic.Load"+fn] = func(e *Exec, _ *frame, _ *ssa.Function, a []Value) Value { return e.load(a[0].(*Value)) }
 		intrinsics["sync/atomic.Store"+fn] = func(e *Exec, _ *frame, _ *ssa.Function, a []Value) Value {
@@ -843,4 +881,20 @@ func (e *Exec) findMethod(t types.Type, name string) *ssa.Function {
 		}
 	}
 	return nil
+}
+
+// mathRound: Trunc/Floor/Ceil are the identity on float64(integer term).
+func mathRound(f func(float64) float64) intrinsic {
+	return func(e *Exec, _ *frame, _ *ssa.Function, a []Value) Value {
+		switch x := a[0].(type) {
+		case float64:
+			return f(x)
+		case FloatOf:
+			if x.T != nil {
+				return x
+			}
+		}
+		e.unsupported("rounding of an unknown float")
+		return nil
+	}
 }
